@@ -73,6 +73,7 @@ def check(run, P):
     _ifthenelse(run, P)
     _merge(run, P)
     _post_pre(run, P)
+    _collapse_all(run, P)
     _identity(run, P)
     _flat(run, P)
 
@@ -118,6 +119,12 @@ def _splice_and_pop(run, P, m):
                 run.ob("C06.splice", f, x, ok,
                        why="deque.extendleft() inserts in reverse, so the children "
                            "of an expanded inner block would be visited last to first")
+            if x.func.attr in ("extend", "append") and "left" in ends.get(q, ()) \
+                    and "right" not in ends.get(q, ()):
+                run.ob("C06.splice", f, x, False,
+                       why="the work-list is consumed from the left: children put on "
+                           "the right end are visited after all pending siblings, "
+                           "which changes the order of the statements")
             if x.func.attr == "extend" and ends.get(q) == {"right"}:
                 a = x.args[0] if x.args else None
                 ok = isinstance(a, ast.Call) and dotted(a.func) == "reversed"
@@ -585,6 +592,44 @@ def _post_pre(run, P):
     run.ob("C06.pre", g, rets[0] if rets else g.node, ok,
            why="normalising 'if' to 'if/else' must keep condition and body and add "
                "an empty else")
+
+
+def _collapse_all(run, P):
+    """In every handler of the three passes: an arm variable may only be
+    replaced by the same-named arm of the node it holds (then <- then.then,
+    else_ <- else_.else_), under a condition-equality guard."""
+    for cname in ("ASTPreSimplifyMapper", "ASTSimplifyMapper", "ASTPostSimplifyMapper"):
+        C = P.cls(f"{MOD}.{cname}")
+        for name, f in sorted(C.methods.items()):
+            if name not in ("map_IfThenElse", "map_IfThen"):
+                continue
+            arm_of = {}
+            for s_ in func_body_stmts(f.node):
+                if isinstance(s_, ast.Assign) and len(s_.targets) == 1 \
+                        and isinstance(s_.targets[0], ast.Name) and isinstance(s_.value, ast.Call) \
+                        and dotted(s_.value.func) == "self.rec" and s_.value.args \
+                        and isinstance(s_.value.args[0], ast.Attribute) \
+                        and s_.value.args[0].attr in ("then", "else_"):
+                    arm_of[s_.targets[0].id] = s_.value.args[0].attr
+            for s_ in ast.walk(f.node):
+                if isinstance(s_, ast.Assign) and len(s_.targets) == 1 \
+                        and isinstance(s_.targets[0], ast.Name) and s_.targets[0].id in arm_of \
+                        and isinstance(s_.value, ast.Attribute) \
+                        and isinstance(s_.value.value, ast.Name) \
+                        and s_.value.value.id == s_.targets[0].id:
+                    v = s_.targets[0].id
+                    parent = _enclosing_if(f.node, s_)
+                    t = ast.unparse(parent.test) if parent is not None else ""
+                    guarded = f"{v}.condition" in t and "==" in t
+                    # arms may have been swapped by negation stripping: the
+                    # polarity rule (C06.neg) covers that; here slot names must agree
+                    ok = guarded and s_.value.attr == arm_of[v]
+                    run.ob("C06.same", f, s_, ok,
+                           construct=f"{cname}.{name}: {norm(s_)} under {t!r} "
+                                     f"({v} holds the '{arm_of[v]}' arm)",
+                           why=f"inside the {arm_of[v]} arm of 'if c' a nested test of c "
+                               f"contributes its {arm_of[v]} arm (or nothing); taking the "
+                               f"other arm runs statements whose guard is false")
 
 
 def _enclosing_test(root, target):
